@@ -16,8 +16,13 @@ pub trait NumOps: Add<Output = Self> + Mul<Output = Self> + Sized {}
 pub open spec fn num_ok<T: NumOps>() -> bool {
     &&& T::obeys_add_spec()
     &&& T::obeys_mul_spec()
-    &&& forall|a: T, b: T| #[trigger] a.add_req(b)
-    &&& forall|a: T, b: T| #[trigger] a.mul_req(b)
+}
+
+// the arithmetic of the i-th edge is defined (for machine integers: does not overflow)
+pub open spec fn edge_defined<T: NumOps + FromPrimitive>(min: T, w: T, i: usize) -> bool {
+    &&& T::from_usize_spec(i).is_some()
+    &&& T::from_usize_spec(i).unwrap().mul_req(w)
+    &&& min.add_req(T::from_usize_spec(i).unwrap().mul_spec(w))
 }
 
 // the i-th edge as `build` computes it: min + from_usize(i) * width
